@@ -30,6 +30,7 @@ func genC11Burst(d *Draw) Case {
 	k := 6 + d.N(26) // the relay between the two tracers buffers ten traces before back-pressure reaches the node
 	pos := d.N(k + 1)
 	noise := []EvPlan{{Kind: "signal", Ref: "sX"}, {Kind: "signal", Ref: "sY"}, {Kind: "message", Ref: "mX"}}
+	prompt := d.Bool() // the burst starts the moment the listener reports that it listens, not when all is at rest
 	var evd []string
 	for i := 0; i <= k; i++ {
 		ep := noise[d.N(len(noise))]
@@ -37,6 +38,7 @@ func genC11Burst(d *Draw) Case {
 			ep = EvPlan{Kind: "signal", Ref: "sA"}
 		}
 		ep.Own, ep.Exact, ep.WhenListening = true, true, 1
+		ep.Prompt = prompt
 		c.Events = append(c.Events, ep)
 		evd = append(evd, ep.Ref)
 	}
@@ -137,6 +139,7 @@ func genC11(d *Draw) Case {
 		if racy {
 			ep.Own = true
 			ep.After = d.N(40)
+			ep.Prompt = d.Bool() // in the middle of whatever the engine does after that trace, or at the next moment of rest
 		}
 		c.Events = append(c.Events, ep)
 		evd = append(evd, ref)
@@ -336,6 +339,11 @@ func genC14(d *Draw) Case {
 		for _, e := range cm.Events {
 			c.Events = append(c.Events, EvPlan{Kind: e.Kind, Ref: e.Ref, Own: true, Exact: true, WhenListening: 1})
 			evd = append(evd, e.Ref+"(concurrent)")
+		}
+		if d.Bool() {
+			for i := range c.Events {
+				c.Events[i].Prompt = true
+			}
 		}
 		ne = 0
 		cm.Relaxed = false
